@@ -59,6 +59,10 @@
 // caller has written ret.<i> (Launch returned): that is the violation
 // "launch-returned-before-Done:gate-closed@Ds"; the D seconds are only the exposure window.
 // Afterwards the gate is opened and the normal post-conditions are judged.
+// Further callers share the same window, each with one gated call whose launcher gets one
+// foreign signal (quick: TERM, HUP, USR1, WINCH; thorough: also USR2, QUIT, CONT, URG) while the
+// gate is closed: success of that Launch before the gate opens is the violation
+// "launch-returned-before-Done:signal=<name>", an error is acceptable, waiting on is fine.
 package main
 
 import (
@@ -113,6 +117,9 @@ type Group struct {
 	// a symlink to the binary; "abs-othercwd" absolute path with a cwd that is neither "/" nor the
 	// binary's directory.
 	Start string `json:"start,omitempty"`
+	// GateSignal (gate cases): while the gate is closed the supervisor sends this signal (TERM,
+	// HUP, USR1, USR2, QUIT, CONT, WINCH, URG) once to the launcher of every gated call.
+	GateSignal string `json:"gate_signal,omitempty"`
 }
 
 func (g Group) name(i int) string { return nameOf(g.Names, i) }
@@ -149,7 +156,7 @@ func (cs Case) shape() string {
 		if g.Stdio {
 			sb.WriteString(":stdio")
 		}
-		fmt.Fprintf(&sb, ":%s:n%d:%s:%s", g.Names, g.Nest, g.StaleFlag, g.Start)
+		fmt.Fprintf(&sb, ":%s:n%d:%s:%s:sig%s", g.Names, g.Nest, g.StaleFlag, g.Start, g.GateSignal)
 	}
 	return sb.String()
 }
@@ -341,7 +348,16 @@ func runCase(cs Case, c *drv.Ctx, root string) (vd verdict) {
 	return vd
 }
 
-func gateKey(cs Case) string {
+var gateSignals = map[string]syscall.Signal{
+	"TERM": syscall.SIGTERM, "HUP": syscall.SIGHUP, "USR1": syscall.SIGUSR1, "USR2": syscall.SIGUSR2,
+	"QUIT": syscall.SIGQUIT, "CONT": syscall.SIGCONT, "WINCH": syscall.SIGWINCH, "URG": syscall.SIGURG,
+}
+
+// gateKeyFor: the key of "Launch returned while its handler waits at the closed gate".
+func gateKeyFor(cs Case, gr *groupRun) string {
+	if gr.g.GateSignal != "" {
+		return "launch-returned-before-Done:signal=" + gr.g.GateSignal
+	}
 	return fmt.Sprintf("launch-returned-before-Done:gate-closed@%ds", cs.GateSecs)
 }
 
@@ -350,6 +366,12 @@ func gateKey(cs Case) string {
 // verdict is structural: a ret.<i> file (written by the caller when Launch returned) of a gated
 // call exists while gate.open - which only this function creates, afterwards - does not: Launch
 // returned although its handler cannot have called Done().
+//
+// Callers with a GateSignal: as soon as the handlers are at the gate, the launcher of each gated
+// call (the handler's parent at start-up, verified by start time and by being a child of the
+// caller) gets that one signal - a signal that is NOT the daemon's Done(). A Launch that then
+// returns success while the gate is closed is the violation; a Launch that returns an error
+// (the launcher died of the signal) is acceptable and counted; one that keeps waiting is fine.
 func gateWindow(cs Case, runs []*groupRun, c *drv.Ctx) verdict {
 	gated := func(gr *groupRun) (idx []int) {
 		for i := range gr.g.Delays {
@@ -359,21 +381,55 @@ func gateWindow(cs Case, runs []*groupRun, c *drv.Ctx) verdict {
 		}
 		return
 	}
-	returned := func() (gr0 *groupRun, i0 int, found bool) {
+	type callKey struct {
+		g, i int
+	}
+	accepted := map[callKey]bool{} // gated calls that ended with an error after a foreign signal
+	t0 := time.Now()
+	// scan classifies every gated call that has returned; a refuting one is handed back
+	scan := func() (v verdict, open int) {
 		for _, gr := range runs {
 			for _, i := range gated(gr) {
-				if exists(filepath.Join(gr.dir, fmt.Sprintf("ret.%d", i))) {
-					return gr, i, true
+				k := callKey{gr.idx, i}
+				if accepted[k] {
+					continue
 				}
+				rf := filepath.Join(gr.dir, fmt.Sprintf("ret.%d", i))
+				var cr CallReport
+				if !exists(rf) || !readJSON(rf, &cr) {
+					open++
+					continue
+				}
+				if gr.g.GateSignal != "" && cr.Failed {
+					accepted[k] = true
+					c.Add("gate_signal_launch_returned_error."+gr.g.GateSignal, 1)
+					continue
+				}
+				markers, dones := readDir(gr.dir)
+				mi, _ := markerOfIdx(markers, i)
+				st, same := sameProcess(mi.Pid, mi.Start)
+				sig := ""
+				if gr.g.GateSignal != "" {
+					sig = fmt.Sprintf(" after the supervisor sent SIG%s to its launcher %d (not the daemon's Done())", gr.g.GateSignal, mi.Launcher)
+				}
+				return verdict{key: gateKeyFor(cs, gr),
+					expected: fmt.Sprintf("%s does not return success while its handler (process %d) waits at the closed gate, i.e. before it called Done() - however slowly the daemon reaches Done()", describe(cs, gr, i), mi.Pid),
+					observed: fmt.Sprintf("Launch returned (%d, %q) %.1f s after the handler arrived at the gate%s, gate.open not yet created; handler process %d is %s (state %s), predone present at return=%v, done record=%+v",
+						cr.Pid, cr.Err, time.Since(t0).Seconds(), sig, mi.Pid, aliveWord(same && st.alive()), st.State, cr.PreDonePresent, dones[mi.Pid])}, 0
 			}
 		}
-		return nil, 0, false
+		return verdict{}, open
 	}
-	callerGone := func() bool {
+	// a caller that is gone although one of its gated calls has neither returned nor been accepted
+	callerLost := func() bool {
 		for _, gr := range runs {
 			select {
 			case <-gr.waited:
-				return true
+				for _, i := range gated(gr) {
+					if !accepted[callKey{gr.idx, i}] && !exists(filepath.Join(gr.dir, fmt.Sprintf("ret.%d", i))) {
+						return true
+					}
+				}
 			default:
 			}
 		}
@@ -387,15 +443,43 @@ func gateWindow(cs Case, runs []*groupRun, c *drv.Ctx) verdict {
 		}
 		return true
 	}
+	var early verdict
 	atGate := waitFor(launchWatchdog, func() bool {
-		_, _, r := returned()
-		return arrived() || r || callerGone()
+		v, _ := scan()
+		early = v
+		return arrived() || v.key != "" || callerLost()
 	}) && arrived()
-	t0 := time.Now()
+	if early.key != "" {
+		return early
+	}
+	t0 = time.Now()
 	polls := int64(0)
 	if atGate {
+		// one foreign signal to the launcher of every gated call of the callers that ask for it
+		for _, gr := range runs {
+			sig, ok := gateSignals[gr.g.GateSignal]
+			if !ok {
+				continue
+			}
+			markers, _ := readDir(gr.dir)
+			for _, i := range gated(gr) {
+				m, okm := markerOfIdx(markers, i)
+				st, same := sameProcess(m.Launcher, m.LauncherStart)
+				if !okm || !same || !st.alive() || st.Ppid != gr.pgid {
+					return verdict{inconclusive: fmt.Sprintf("launcher of the gated call %d of caller %d not found (marker=%v stat=%+v)", i, gr.pgid, okm, st)}
+				}
+				if err := syscall.Kill(m.Launcher, sig); err != nil {
+					return verdict{inconclusive: fmt.Sprintf("cannot signal launcher %d: %v", m.Launcher, err)}
+				}
+				c.Add("gate_signals_sent."+gr.g.GateSignal, 1)
+			}
+		}
 		for time.Since(t0) < time.Duration(cs.GateSecs)*time.Second {
-			if _, _, r := returned(); r || callerGone() {
+			v, open := scan()
+			if v.key != "" {
+				return v
+			}
+			if open == 0 || callerLost() {
 				break
 			}
 			polls++
@@ -403,22 +487,14 @@ func gateWindow(cs Case, runs []*groupRun, c *drv.Ctx) verdict {
 		}
 	}
 	// ---- the decision, taken while gate.open does not exist ----
-	if gr, i, r := returned(); r {
-		var cr CallReport
-		readJSON(filepath.Join(gr.dir, fmt.Sprintf("ret.%d", i)), &cr)
-		markers, dones := readDir(gr.dir)
-		mi, _ := markerOfIdx(markers, i)
-		st, same := sameProcess(mi.Pid, mi.Start)
-		return verdict{key: gateKey(cs),
-			expected: fmt.Sprintf("%s does not return while its handler (process %d) waits at the closed gate, i.e. before it called Done() - however slowly the daemon reaches Done()", describe(cs, gr, i), mi.Pid),
-			observed: fmt.Sprintf("Launch returned (%d, %q) %.1f s after the handler arrived at the gate, gate.open not yet created; handler process %d is %s (state %s), predone present at return=%v, done record=%+v",
-				cr.Pid, cr.Err, time.Since(t0).Seconds(), mi.Pid, aliveWord(same && st.alive()), st.State, cr.PreDonePresent, dones[mi.Pid])}
+	if v, _ := scan(); v.key != "" {
+		return v
 	}
 	if !atGate {
-		return verdict{inconclusive: fmt.Sprintf("gated handlers did not arrive at the gate within %v (caller gone=%v)", launchWatchdog, callerGone())}
+		return verdict{inconclusive: fmt.Sprintf("gated handlers did not arrive at the gate within %v (caller lost=%v)", launchWatchdog, callerLost())}
 	}
-	if callerGone() {
-		return verdict{inconclusive: "a caller exited during the gate window without a gated Launch having returned"}
+	if callerLost() {
+		return verdict{inconclusive: "a caller exited during the gate window without its gated Launch having returned"}
 	}
 	c.Add("gate_windows_held_closed", 1)
 	c.Add("gate_polls_launch_not_returned", polls)
@@ -620,6 +696,9 @@ func describe(cs Case, gr *groupRun, i int) string {
 		} else {
 			linger += fmt.Sprintf("; its daemon launches handler %q in turn (nesting depth %d)", shortName(gr.g.name(i+1)), gr.g.Nest)
 		}
+	}
+	if gr.g.GateSignal != "" {
+		linger += "; the supervisor sends SIG" + gr.g.GateSignal + " to the launcher while the handler waits at the gate"
 	}
 	if gr.g.StaleFlag != "" {
 		linger += fmt.Sprintf("; caller started with a stale ENV_DAEMON_FLAG=%s in its environment", gr.g.StaleFlag)
@@ -868,8 +947,13 @@ func judgeExited(cs Case, gr *groupRun, c *drv.Ctx) verdict {
 			callerPid = r.CalledBy
 		}
 		if gr.g.kind(i) == kindGated {
+			if !r.GateOpen && r.Failed && gr.g.GateSignal != "" {
+				// a foreign signal ended the launcher: an error before Done() is acceptable
+				c.Add("gated_launches_failed_after_foreign_signal", 1)
+				continue
+			}
 			if !r.GateOpen { // the caller's own observation at the moment Launch returned
-				return verdict{key: gateKey(cs), expected: what + " does not return while its handler waits at the closed gate, i.e. before it called Done()",
+				return verdict{key: gateKeyFor(cs, gr), expected: what + " does not return while its handler waits at the closed gate, i.e. before it called Done()",
 					observed: fmt.Sprintf("Launch returned (%d, %q) and gate.open did not exist at that moment (predone present=%v)", r.Pid, r.Err, r.PreDonePresent)}
 			}
 			c.Add("gated_launches_returned_only_after_gate_opened", 1)
@@ -1091,7 +1175,7 @@ type mon struct{}
 func (mon) Name() string { return "daemonlaunch" }
 
 func (mon) Level(string) (string, string) {
-	return "exploration", "scenarios = caller processes calling daemon.Launch 1, 2 or 8 times concurrently; schedules: natural timing with the handler sleeping 0/5/200 ms before Done(); forced early Done() (launcher held by the verif pause hook right after cmd.Start() until every daemon of the caller returned from Done()); concurrent calls all natural, all forced, or one forced and one natural caller at the same time; all of these again with a launcher process that lingers 50/300 ms between daemon.Run() returning and os.Exit(0). histories of 6..12 calls in one caller process (sequential or in steps of 1-3 concurrent calls, GOMAXPROCS default or 1) in which handlers that fail before Done() (exit 3, exit 0, panic) are interleaved with healthy ones; daemons that, after Done(), write lines to stderr and stdout (also through package log, once at once and three times after the launcher is gone) and read stdin before their liveness is judged; handler names from the edges (empty, blank, 'a b', 'x=y', non-ASCII, 200 bytes, prefixes of each other, the ENV_DAEMON_FLAG values); nested launches (a daemon, after Done(), launches the next handler from inside, depth 2 and in thorough 3, judged by the same post-conditions); callers with a stale ENV_DAEMON_FLAG in their environment; callers started by relative path from their own or the parent directory, by bare name through PATH, through a symlink, or with another working directory; slow daemons: the handler waits before Done() at a gate that the supervisor keeps closed for 8 s (quick) or 8/20/45 s (thorough) - Launch must not have returned (no ret file of the caller) at the moment the supervisor decides to open the gate, the seconds being exposure only. Other timings of the three processes are sampled by repetition only. distinct_nontrivial = distinct (schedule class, forced flag and delay vector per caller) shapes"
+	return "exploration", "scenarios = caller processes calling daemon.Launch 1, 2 or 8 times concurrently; schedules: natural timing with the handler sleeping 0/5/200 ms before Done(); forced early Done() (launcher held by the verif pause hook right after cmd.Start() until every daemon of the caller returned from Done()); concurrent calls all natural, all forced, or one forced and one natural caller at the same time; all of these again with a launcher process that lingers 50/300 ms between daemon.Run() returning and os.Exit(0). histories of 6..12 calls in one caller process (sequential or in steps of 1-3 concurrent calls, GOMAXPROCS default or 1) in which handlers that fail before Done() (exit 3, exit 0, panic) are interleaved with healthy ones; daemons that, after Done(), write lines to stderr and stdout (also through package log, once at once and three times after the launcher is gone) and read stdin before their liveness is judged; handler names from the edges (empty, blank, 'a b', 'x=y', non-ASCII, 200 bytes, prefixes of each other, the ENV_DAEMON_FLAG values); nested launches (a daemon, after Done(), launches the next handler from inside, depth 2 and in thorough 3, judged by the same post-conditions); callers with a stale ENV_DAEMON_FLAG in their environment; callers started by relative path from their own or the parent directory, by bare name through PATH, through a symlink, or with another working directory; slow daemons: the handler waits before Done() at a gate that the supervisor keeps closed for 8 s (quick) or 8/20/45 s (thorough) - Launch must not have returned (no ret file of the caller) at the moment the supervisor decides to open the gate, the seconds being exposure only; in the same window further callers whose launcher receives one foreign signal (TERM, HUP, USR1, WINCH; thorough also USR2, QUIT, CONT, URG) while the gate is closed - Launch may fail or keep waiting but must not report success before the gate opens. Other timings of the three processes are sampled by repetition only. distinct_nontrivial = distinct (schedule class, forced flag and delay vector per caller) shapes"
 }
 
 func (mon) Assumptions(string) []string {
@@ -1102,6 +1186,7 @@ func (mon) Assumptions(string) []string {
 		"Launch calls of handlers that never reach Done() are outside the statement: their results are counted (error / (pid, nil) / foreign pid), not judged",
 		"all start modes of the caller (absolute, ./prog, sub/prog, bare name through PATH, symlink, other cwd) work on the unchanged library, none was left out; a caller with ENV_DAEMON_NAME in its environment is not a case: daemon.Run() keys on that variable alone and the documented 'if daemon.Run() { os.Exit(0) }' ends such a program at once",
 		"a Launch error for a handler that no process ever ran counts as a violation unless the error text is a resource refusal (EAGAIN, ENOMEM, EMFILE, ENOSPC): the harness handlers call Done() whenever they are run, and the launcher that could have started them is gone when Launch returns",
+		"gate cases send the launcher one foreign signal out of TERM, HUP, USR1, USR2, QUIT, CONT, WINCH, URG; SIGINT is not sent (it IS the protocol's signal: a SIGINT from anybody is indistinguishable from the daemon's Done() by design), nor SIGKILL/SIGSTOP; after a foreign signal an error from Launch is acceptable (counted), success before the gate opened is not",
 		"callers run with SIGINT at its default disposition (an inherited SIG_IGN is reset before the first Launch)",
 	}
 }
@@ -1202,8 +1287,8 @@ func (mon) Plan(prop, tier string, seed int64) []drv.Shard {
 
 var delayChoices = []int{0, 5, 200}
 
-// genCase is a pure function of (class, seed, part, run).
-func genCase(class string, seed int64, part, run int) Case {
+// genCase is a pure function of (class, tier, seed, part, run).
+func genCase(class, tier string, seed int64, part, run int) Case {
 	r := rand.New(rand.NewSource(seed*1000003 + int64(drv.HashStr(class)%100000)*131 + int64(part)*7919 + int64(run)))
 	cs := Case{Sched: class, Id: fmt.Sprintf("%s.%d.%d.%d", class, seed, part, run)}
 	f := strings.Split(class, "-")
@@ -1264,6 +1349,22 @@ func genCase(class string, seed int64, part, run int) Case {
 			g.Kinds = append(g.Kinds, kindHealthy)
 		}
 		cs.Groups = []Group{g}
+		// further callers share the window: each has one gated call whose launcher gets a signal
+		// that is not the daemon's Done()
+		sigs := []string{"TERM", "HUP", "USR1", "WINCH"} // quick
+		if tier == "thorough" {
+			switch {
+			case cs.GateSecs > 8:
+				sigs = []string{"TERM", "CONT"}
+			case part%2 == 0:
+				sigs = []string{"TERM", "HUP", "USR1", "USR2"}
+			default:
+				sigs = []string{"QUIT", "CONT", "WINCH", "URG"}
+			}
+		}
+		for _, sg := range sigs {
+			cs.Groups = append(cs.Groups, Group{Delays: []int{delayChoices[r.Intn(2)]}, Kinds: []string{kindGated}, GateSignal: sg})
+		}
 	case "h":
 		n := 6 + r.Intn(maxN-5) // 6..12 calls
 		g := Group{Delays: make([]int, n), Kinds: make([]string, n)}
@@ -1370,7 +1471,7 @@ func (mn mon) Run(sh drv.Shard, c *drv.Ctx) {
 	}
 	defer os.RemoveAll(root)
 	for run := 0; run < a.Runs; run++ {
-		cs := genCase(a.Class, sh.Seed, a.Part, run)
+		cs := genCase(a.Class, sh.Tier, sh.Seed, a.Part, run)
 		c.Progress(cs.Id, true)
 		v := execCase(cs, c, root)
 		c.Eval(1)
